@@ -619,7 +619,7 @@ pub fn slice_to_set(v: &[TargetId]) -> (r: HashSet<TargetId>)
         final(target_actors).wf_handles(*final(tr)),
         /*[C04.relay-forward,C01.relay]*/ r is Ok ==> final(tr).delivered == old(tr).delivered + forwards_of(final(tr).inlog),
         /*[C07.once]*/ saw_error(final(tr).inlog) ==> r is Err,
-        /*[C04.exit]*/ r is Ok ==> final(tr).term_seen || (roots_left(root_target_ids@.to_set(), final(tr).inlog, ExecutionKind::Build).len() == 0 && roots_left(root_target_ids@.to_set(), final(tr).inlog, ExecutionKind::Service).len() == 0),
+        /*[C04.exit,C11.keepalive-roots]*/ r is Ok ==> final(tr).term_seen || (roots_left(root_target_ids@.to_set(), final(tr).inlog, ExecutionKind::Build).len() == 0 && roots_left(root_target_ids@.to_set(), final(tr).inlog, ExecutionKind::Service).len() == 0),
         /*[C11.keepalive]*/ r is Ok && !final(tr).term_seen ==> actual_roots(final(tr).inlog).len() == 0,
         /*[C11.keepalive]*/ final(tr).awaited_signal ==> actual_roots(final(tr).inlog).len() > 0,
 //@pre
@@ -632,8 +632,8 @@ pub fn slice_to_set(v: &[TargetId]) -> (r: HashSet<TargetId>)
                 target_actors.wf(*tr),
                 roots == root_target_ids@.to_set(),
                 /*[C04.relay-forward,C01.relay]*/ tr.delivered == d0 + forwards_of(tr.inlog),
-                /*[C04.root]*/ unavailable_root_builds@ == roots_left(roots, tr.inlog, ExecutionKind::Build),
-                /*[C04.root]*/ unavailable_root_services@ == roots_left(roots, tr.inlog, ExecutionKind::Service),
+                /*[C04.root,C11.keepalive-roots]*/ unavailable_root_builds@ == roots_left(roots, tr.inlog, ExecutionKind::Build),
+                /*[C04.root,C11.keepalive-roots]*/ unavailable_root_services@ == roots_left(roots, tr.inlog, ExecutionKind::Service),
                 /*[C11.actual-root]*/ service_root_targets@ == actual_roots(tr.inlog),
                 /*[C10.signal]*/ termination_event_received == tr.term_seen,
                 /*[C07.once]*/ !saw_error(tr.inlog),
